@@ -7,6 +7,10 @@ import (
 	"os"
 	"os/exec"
 	"strings"
+	"time"
+
+	"github.com/aml-org/amf-custom-validator/pkg/config"
+	"github.com/aml-org/amf-custom-validator/verifrt"
 )
 
 // C06 — same inputs, byte-identical report and byte-identical generated code.
@@ -16,7 +20,7 @@ import (
 
 type c06Case struct {
 	Profile int    `json:"profile"`
-	Pass    string `json:"pass"` // "keys": all orders of the YAML key maps (unbounded) | "others": every other map-range site at bound 1 | "all2": every site, bound 2
+	Pass    string `json:"pass"` // "clocks": configured clock values x a moving wall clock | "keys": all orders of the YAML key maps (unbounded) | "others": every other map-range site at bound 1 | "all2": every site, bound 2
 	Replay  []int  `json:"replay,omitempty"`
 	Plain   bool   `json:"plain,omitempty"` // uninstrumented repetition pass
 	Part    int    `json:"part,omitempty"`
@@ -128,7 +132,7 @@ func c06Graph() *Graph {
 func init() {
 	Register(Meta{
 		ID: "C06", Level: "model_checking", LongCases: true,
-		Rule:        "instrumented build: every `range` over a map in the repository is rewritten to iterate in the order dictated by the explorer (site list in the evidence). Profiles: m=2..4 sibling quantified constraints under one propertyConstraints map, the same nested to depth 2, under or/and/not mixed with plain constraints, with 1-3 prefixes. For each profile: pass keys = every order of every YAML key map (all permutations for <=4 keys, unbounded composition); pass others = every other map-range site at deviation bound 1 (2n rotations/reversals for maps with >4 keys); thorough adds pass all2 = every site at bound 2. Oracle: all executions of Validate(profile, data, fixed clock) yield one report byte string and all executions of GenerateRego after a counter reset yield one code byte string. An uninstrumented pass repeats every profile 30x in one process (Go's own random map order) as a cross-check that the seam is complete. Pass history: for 5 profiles x 6 documents chosen to collide on cheap cache keys (same profile name / different content, same node ids / different values, failing inputs), every ordered pair of Validate calls is executed in one process and each result must equal the result the same call gave before (a call's bytes must not depend on the call made before it).",
+		Rule:        "instrumented build: every `range` over a map in the repository is rewritten to iterate in the order dictated by the explorer (site list in the evidence). Profiles: m=2..4 sibling quantified constraints under one propertyConstraints map, the same nested to depth 2, under or/and/not mixed with plain constraints, with 1-3 prefixes. For each profile: pass keys = every order of every YAML key map (all permutations for <=4 keys, unbounded composition); pass others = every other map-range site at deviation bound 1 (2n rotations/reversals for maps with >4 keys); thorough adds pass all2 = every site at bound 2. Oracle: all executions of Validate(profile, data, fixed clock) yield one report byte string and all executions of GenerateRego after a counter reset yield one code byte string. An uninstrumented pass repeats every profile 30x in one process (Go's own random map order) as a cross-check that the seam is complete. Pass clocks: the repository's time.Now() is routed through a seam that jumps by an hour on every reading; for 9 configured clock values (ordinary, zero Time, Unix epoch in two locations, 1 ns after it, 1960, 9999, two non-UTC zones) x dateCreated on/off, three consecutive identical calls must give identical bytes. Pass history: for 13 profiles x 8 documents chosen to collide on cheap cache keys and shared tables (same profile name / different content, same node ids / different values, failing inputs, a prefix rebound between profiles, the name of a built-in prefix bound to another namespace, a prefix declared by one profile and used undeclared by another, two long profiles that differ late), every ordered pair of Validate calls is executed in one process and each result must equal the result the same call gave before (a call's bytes must not depend on the call made before it).",
 		Assumptions: []string{"nondeterminism inside dependencies (OPA, json-gold, encoding/json) is not behind the seam; the uninstrumented repetition pass is the cross-check for it"},
 	}, c06Gen, c06Run)
 	Register(Meta{
@@ -167,8 +171,18 @@ func c06HistInputs() (profiles []string, datas []string) {
 		}
 		return EmitYAML(M("profile", "long", "prefixes", M("ex", EX), "validations", vals, "violation", strs(a), "warning", strs(b)))
 	}
+	// prefix tables: a profile that binds the NAME of a built-in prefix (core) to its own namespace, one that relies on
+	// the built-in binding of that name, one that declares a fresh prefix, and one that uses that fresh prefix without
+	// declaring it (always an error)
+	pfx := func(name string, prefixes *YMap, prop string) string {
+		return EmitYAML(M("profile", name, "prefixes", prefixes, "violation", strs("v"),
+			"validations", M("v", M("message", "m", "targetClass", "ex.T", "propertyConstraints", M(prop, M("minCount", 1))))))
+	}
 	profiles = []string{mkp("same name", "ex.p1", 1), mkp("same name", "ex.p2", 1), mkp("same name", "ex.p1", 2), mkp("other", "ex.p1", 1), "profile: [broken\n",
-		rebind("http://a.ml/vocabularies/api-extension#"), rebind("http://example.org/ext#"), long(false), long(true)}
+		rebind("http://a.ml/vocabularies/api-extension#"), rebind("http://example.org/ext#"),
+		pfx("shadow", M("ex", EX, "core", "http://example.org/acme#"), "core.name"), pfx("builtin", M("ex", EX), "core.name"),
+		pfx("declares", M("ex", EX, "acme", "http://example.org/acme#"), "acme.name"), pfx("undeclared", M("ex", EX), "acme.name"),
+		long(false), long(true)}
 	mkd := func(v1, v2 string, two bool) string {
 		g := &Graph{}
 		n := g.Add(nid(0), EX+"T").P(EX+v1, "a")
@@ -185,7 +199,14 @@ func c06HistInputs() (profiles []string, datas []string) {
 		g.Add(nid(1), EX+"T").P(EX+"p2", "a")
 		return g.FlatJSONLD()
 	}
-	datas = []string{mkd("p1", "p2", false), mkd("p2", "p1", false), mkd("p1", "p1", true), mkd("p3", "p3", false), `{"@graph":[`, `{}`, owner()}
+	names := func() string {
+		g := &Graph{}
+		g.Add(nid(0), EX+"T").P("http://example.org/acme#name", "acme name")
+		g.Add(nid(1), EX+"T").P("http://a.ml/vocabularies/core#name", "core name")
+		g.Add(nid(2), EX+"T").P(EX+"p1", "a")
+		return g.FlatJSONLD()
+	}
+	datas = []string{mkd("p1", "p2", false), mkd("p2", "p1", false), mkd("p1", "p1", true), mkd("p3", "p3", false), `{"@graph":[`, `{}`, owner(), names()}
 	return
 }
 
@@ -227,7 +248,7 @@ func c06RunHistory(c *Ctx, cs c06Case) {
 	var calls []call
 	for p := range profiles {
 		for d := range datas {
-			if p >= 7 && d != 0 {
+			if p >= len(profiles)-2 && d != 0 {
 				continue // the two long profiles (slow to compile) are paired with the first document only
 			}
 			calls = append(calls, call{p, d})
@@ -274,11 +295,14 @@ func c06RunHistory(c *Ctx, cs c06Case) {
 func c06Gen(tier string, emit func(c06Case)) {
 	{
 		ps, ds := c06HistInputs()
-		for k := 0; k < 7*len(ds)+(len(ps)-7); k++ {
+		for k := 0; k < (len(ps)-2)*len(ds)+2; k++ {
 			emit(c06Case{Pass: "history", Part: k})
 		}
 	}
 	for p := range c06Profiles() {
+		if p < 2 {
+			emit(c06Case{Profile: p, Pass: "clocks"})
+		}
 		emit(c06Case{Profile: p, Pass: "keys", Parts: 1})
 		for k := 0; k < 4; k++ {
 			emit(c06Case{Profile: p, Pass: "others", Part: k, Parts: 4})
@@ -325,6 +349,52 @@ func c06Run(c *Ctx, cs c06Case) {
 	}
 	if !strings.Contains(ref.Report, "subResult") {
 		panic("harness: C06 profile produces no nested results; byte comparison would be weak\n" + prof)
+	}
+	if cs.Pass == "clocks" {
+		// the configured clock is part of the input; the wall clock is not. The instrumented build routes the
+		// repository's time.Now() through verifrt.Now, which here jumps by an hour on every reading, so a report that
+		// takes anything from the wall clock differs between two consecutive identical calls.
+		before := verifrt.NowReadings()
+		config.DefaultValidationConfiguration{}.ReportCreationTime()
+		if verifrt.NowReadings() == before {
+			panic("harness: the wall clock seam is not wired (C06 pass clocks needs the instrumented build)")
+		}
+		verifrt.FakeNow = true
+		defer func() { verifrt.FakeNow = false }()
+		clocks := []struct {
+			name string
+			t    time.Time
+		}{
+			{"2000-11-28 UTC", Epoch2000.T}, {"zero Time", time.Time{}}, {"Unix(0,0)", time.Unix(0, 0)}, {"Unix(0,0) UTC", time.Unix(0, 0).UTC()},
+			{"Unix(0,1)", time.Unix(0, 1).UTC()}, {"1960", time.Date(1960, 2, 29, 1, 2, 3, 0, time.UTC)}, {"9999", time.Date(9999, 12, 31, 23, 59, 59, 999999999, time.UTC)},
+			{"zone -07:30", time.Date(2021, 3, 4, 5, 6, 7, 0, time.FixedZone("X", -7*3600-30*60))}, {"zone +14:00 with nanoseconds", time.Date(2024, 2, 29, 23, 59, 59, 123456789, time.FixedZone("Y", 14*3600))},
+		}
+		for _, inc := range []bool{true, false} {
+			rc := DefaultReportConf()
+			rc.IncludeReportCreationTime = inc
+			for _, cl := range clocks {
+				var outs []string
+				for k := 0; k < 3; k++ {
+					r := ValidateConf(prof, c06DataText, FixedClock{cl.t}, rc, nil)
+					c.Eval(1)
+					if r.Panic != nil || r.Err != nil {
+						c.Violate("C06 validation fails under a configured clock: "+firstLine(r.ErrString()), fmt.Sprintf("clock %s\n%s", cl.name, prof), nil)
+						break
+					}
+					outs = append(outs, r.Report)
+				}
+				for k := 1; k < len(outs); k++ {
+					if outs[k] != outs[0] {
+						c.Violate("C06 the same call under the same configured clock gives different bytes when the wall clock moves", fmt.Sprintf("profile %d, configured clock %s (%v), dateCreated included=%v, call 1 vs call %d\n%s", cs.Profile, cl.name, cl.t, inc, k+1, firstDiff(outs[0], outs[k])), nil)
+						break
+					}
+				}
+				c.Outcome(fmt.Sprintf("clock %s inc=%v", cl.name, inc))
+			}
+		}
+		c.Nontrivial(fmt.Sprintf("%d/clocks", cs.Profile))
+		c.Sample(map[string]any{"profile": cs.Profile, "pass": "clocks", "clocks": len(clocks), "wall_clock_readings": verifrt.NowReadings() - before})
+		return
 	}
 	if cs.Plain {
 		for i := 0; i < 30; i++ {
